@@ -197,7 +197,13 @@ def subchecks(tier):
     its = [3, 7, 8, 9, 12]
     for grp, kw in {"plain": dict(orders=(2, 3, 4)), "normalize": dict(orders=(3, 4)), "normalize_o2": dict(orders=(2,)),
                     "linesearch": dict(orders=(2, 3, 4))}.items():
-        strat = g.cp_case(kinds=C7_KINDS, opts=parafac_opts(grp), iters=its, tols=TOL, **kw)
+        if grp == "linesearch":
+            # data scale class (||X|| both << 1 and >> 1) and runs long enough for the line-search iterations
+            # 6, 8, ..., 22: a jump test that mixes absolute and relative errors only misbehaves for ||X|| < 1
+            kw = dict(kw, scales=xi.SCALES)
+            strat = g.cp_case(kinds=C7_KINDS, opts=parafac_opts(grp), iters=[7, 9, 12, 17, 24, 24], tols=TOL, **kw)
+        else:
+            strat = g.cp_case(kinds=C7_KINDS, opts=parafac_opts(grp), iters=its, tols=TOL, **kw)
         add(f"parafac/{grp}/objective", strat, o_objective(P, "callback"), quick=100, thorough=500)
         add(f"parafac/{grp}/reported", strat, o_reported(P, "callback"), quick=100, thorough=500)
 
